@@ -101,9 +101,13 @@ def main(argv=None):
             for cex in res["cexs"]:
                 if cex["detail"].get("kind") == "budget":
                     continue
-                props = [h.prop]
-                if cex["detail"].get("kind") == "exception" and h.exception_props is not None:
-                    props = list(h.exception_props)
+                props = list(getattr(h, "props", None) or [h.prop])
+                if cex["detail"].get("kind") == "exception":
+                    props = list(h.exception_props) if h.exception_props is not None else props + ["C19"]
+                else:
+                    tagged = set(f.split(":")[0] for f in cex["detail"].get("failed", []) if len(f) > 4 and f[0] == "C" and f[3] == ":")
+                    if tagged:
+                        props = sorted(tagged)
                 if prop not in props:
                     continue
                 sig = "%s:%s" % (hn, h.signature(cex["values"], p, cex["detail"]))
